@@ -6,6 +6,7 @@ import vlib
 import langcheck
 
 LEVEL = "model_checking"
+COMPILES_PROGRAMS = True      # check reports mlang.Compile's long-lived-compiler comparison (vlib.report_compiler_reuse)
 META = {
     "text": "spec/VM.tla is the bytecode interpreter abstracted to operand representations (Go int vs int64 vs float64 vs string vs bool vs "
             "datum-of-type vs metric vs duration), program counter and constant/regexp/metric indexes, with every checked runtime error "
